@@ -626,7 +626,7 @@ def sched_group(g, shape, scale):
             g.emit("concagg paror %d %d %s" % (r.choice([4, 8]), r.choice([1, 4]), " ".join(z)))
             g.emit("concagg parheapor %d %d %s" % (r.choice([4, 8]), r.choice([1, 4]), " ".join(z)))
     for x in names[:2]:
-        for mode in ("readfrom", "frombuffer", "mixed"):
+        for mode in ("readfrom", "frombuffer", "mixed", "afterfail"):
             g.emit("concdec %d %s %s" % (r.choice([2, 4, 8, 32]), x, mode))
             g.count("concdec:" + mode)
 
